@@ -25,3 +25,28 @@ func VerifResetEquivalenceCalls() { verifEquivalenceCalls.Store(0) }
 func (z *Zipper) VerifInstrMaps() (fwd, rev map[ssa.Instruction]ssa.Instruction) {
 	return z.instrMap, z.revInstrMap
 }
+
+// VerifEquivalenceTrace, when set, is called after every areEquivalent decision with the zipper in
+// the state the decision was taken in (value map and canonicalizers still live).
+var VerifEquivalenceTrace func(z *Zipper, a, b ssa.Instruction, eq bool)
+
+func verifTraceEquivalence(z *Zipper, a, b ssa.Instruction, eq bool) {
+	if VerifEquivalenceTrace != nil {
+		VerifEquivalenceTrace(z, a, b, eq)
+	}
+}
+
+// VerifMapped returns the new value an old value is mapped to at this moment.
+func (z *Zipper) VerifMapped(old ssa.Value) (ssa.Value, bool) {
+	v, ok := z.valMap[old]
+	return v, ok
+}
+
+// VerifCanonOld / VerifCanonNew render a non-linkable operand exactly as compareOperands does.
+func (z *Zipper) VerifCanonOld(v ssa.Value, ctx ssa.Instruction) string {
+	return z.oldCanon.NormalizeOperand(v, ctx)
+}
+
+func (z *Zipper) VerifCanonNew(v ssa.Value, ctx ssa.Instruction) string {
+	return z.newCanon.NormalizeOperand(v, ctx)
+}
